@@ -142,13 +142,15 @@ def is_const_type(t):
 
 # ------------------------------------------------------------------ analysis of one function body
 class Ctx:
-    __slots__ = ("locks", "inloop", "dbg")
+    # guards: members read in the conditions of the enclosing if-statements; loop: index into Summary.accesses at which the
+    # outermost enclosing loop statement starts (None outside loops)
+    __slots__ = ("locks", "inloop", "dbg", "guards", "loop")
 
-    def __init__(self, locks=frozenset(), inloop=False, dbg=False):
-        self.locks, self.inloop, self.dbg = locks, inloop, dbg
+    def __init__(self, locks=frozenset(), inloop=False, dbg=False, guards=frozenset(), loop=None):
+        self.locks, self.inloop, self.dbg, self.guards, self.loop = locks, inloop, dbg, guards, loop
 
     def but(self, **kw):
-        c = Ctx(self.locks, self.inloop, self.dbg)
+        c = Ctx(self.locks, self.inloop, self.dbg, self.guards, self.loop)
         for k, v in kw.items():
             setattr(c, k, v)
         return c
@@ -164,6 +166,15 @@ class Summary:
         self.xcalls = []             # (field, fieldclass, callee, locks, inloop, file, line)
         self.posts = []              # (targetclass, callee, file, line)
         self.registers = []          # (targetclass, callee, via, file, line)
+        self.accloop = []            # parallel to accesses: start index of the outermost enclosing loop, or None
+        self.lockuses = []           # (mutex member, file, line, position in accesses)   MutexLockGuard constructed on it
+        self.destroys = []           # destructors: (sync member, file, line of the closing brace)  implicit member destruction
+        self.joins = []              # (guard members, file, line)   a call of join() and the members its enclosing ifs read
+        self.callguards = []         # (callee on this, guard members)
+        self.callpos = []            # (callee on this, position in accesses, inloop)
+        self.tailranges = []         # (g, start, end): the body's accesses [start, end) follow its last write of g
+        self.rawposts = []           # (targetclass, callee, file, line)  posted functor bound to the raw `this`
+        self.tails = {}              # member g written here -> members used (locks held) at/after the last write of g
         self.bodies = 0
         self.decl_line = None
         self.file = None
@@ -250,6 +261,7 @@ class Analyzer:
         f, l = loc_of(node)
         for k in ("RW" if kind == "RW" else kind):
             self.s.accesses.append((field, k, tuple(sorted(ctx.locks)), ctx.inloop, ctx.dbg, f, l))
+            self.s.accloop.append(ctx.loop)
 
     def method_refs(self, n):
         """[(class, method)] for every &Class::method (or local member-pointer variable) under n."""
@@ -288,6 +300,8 @@ class Analyzer:
                             if g:
                                 m = g
                     if m:
+                        f_, l_ = loc_of(v)
+                        self.s.lockuses.append((m, f_, l_, len(self.s.accesses)))
                         ctx = ctx.but(locks=ctx.locks | {m})
                     continue
                 if v.get("kind") == "VarDecl":
@@ -306,17 +320,41 @@ class Analyzer:
         self.stmt(n, ctx)
         return ctx
 
-    def cond_info(self, c):
-        """('in'|'out'|None) : the condition being true implies in-loop / not-in-loop."""
+    def cond_true_in(self, c):
+        """the condition being TRUE implies the caller is on the loop thread."""
         c = strip(c)
         if self.is_loop_query(c, "isInLoopThread"):
-            return "in"
-        if c.get("kind") == "UnaryOperator" and c.get("opcode") == "!" and self.is_loop_query(kids(c)[0], "isInLoopThread"):
-            return "out"
+            return True
+        if c.get("kind") == "UnaryOperator" and c.get("opcode") == "!":
+            return self.cond_false_in(kids(c)[0])
         if c.get("kind") == "BinaryOperator" and c.get("opcode") == "&&":
             a, b = kids(c)
-            if "in" in (self.cond_info(a), self.cond_info(b)):
-                return "in"
+            return self.cond_true_in(a) or self.cond_true_in(b)
+        if c.get("kind") == "BinaryOperator" and c.get("opcode") == "||":
+            a, b = kids(c)
+            return self.cond_true_in(a) and self.cond_true_in(b)
+        return False
+
+    def cond_false_in(self, c):
+        """the condition being FALSE implies the caller is on the loop thread (`!isInLoopThread() || x || y`: every
+        operand is false, in particular the first)."""
+        c = strip(c)
+        if c.get("kind") == "UnaryOperator" and c.get("opcode") == "!":
+            return self.cond_true_in(kids(c)[0])
+        if c.get("kind") == "BinaryOperator" and c.get("opcode") == "||":
+            a, b = kids(c)
+            return self.cond_false_in(a) or self.cond_false_in(b)
+        if c.get("kind") == "BinaryOperator" and c.get("opcode") == "&&":
+            a, b = kids(c)
+            return self.cond_false_in(a) and self.cond_false_in(b)
+        return False
+
+    def cond_info(self, c):
+        """('in'|'out'|None) : the condition being true implies in-loop / being false implies in-loop."""
+        if self.cond_true_in(c):
+            return "in"
+        if self.cond_false_in(c):
+            return "out"
         return None
 
     def stmt(self, n, ctx):
@@ -334,8 +372,10 @@ class Analyzer:
                 for ch in ks:
                     self.stmt(ch, ctx)
                 return
+            n0 = len(self.s.accesses)
             self.expr(cond, ctx, "U")
             info = self.cond_info(cond)
+            ctx = ctx.but(guards=ctx.guards | frozenset(a[0] for a in self.s.accesses[n0:]))
             if rest:
                 self.stmt(rest[0], ctx.but(inloop=True) if info == "in" else ctx)
             if len(rest) > 1:
@@ -346,6 +386,8 @@ class Analyzer:
             if k == "DeclStmt":
                 self.stmt_seq(n, ctx)
                 return
+            if k in ("WhileStmt", "ForStmt", "DoStmt", "CXXForRangeStmt") and ctx.loop is None:
+                ctx = ctx.but(loop=len(self.s.accesses))
             for ch in kids(n):
                 self.stmt(ch, ctx)
             return
@@ -499,11 +541,20 @@ class Analyzer:
                 posted += self.method_refs(a)
             for (c, m) in posted:
                 self.s.posts.append((c, m, f, l))
+            # bind(&C::m, this, ...): the functor carries the raw `this` (no shared_from_this / weak pointer): lifetime hazard
+            for a in args:
+                for x in walk(a):
+                    if x.get("kind") == "CallExpr" and len(kids(x)) >= 3 and \
+                       (strip(kids(x)[0]).get("referencedDecl") or {}).get("name") == "bind" and \
+                       strip(kids(x)[2]).get("kind") == "CXXThisExpr":
+                        for (c, m) in self.method_refs(kids(x)[1]):
+                            self.s.rawposts.append((c, m, f, l))
             # arguments other than the method references are evaluated here
             for a in args:
                 self.expr_skip_method_refs(a, ctx)
             if sb.get("kind") == "CXXThisExpr":
                 self.s.calls.append((mname, tuple(sorted(ctx.locks)), ctx.inloop, f, l))
+                self.s.callpos.append((mname, len(self.s.accesses), ctx.inloop))
             else:
                 self.expr(base, ctx, "U")
                 rf = self.root_field(base)
@@ -513,10 +564,14 @@ class Analyzer:
         # --- call on this
         if sb.get("kind") == "CXXThisExpr":
             self.s.calls.append((mname, tuple(sorted(ctx.locks)), ctx.inloop, f, l))
+            self.s.callguards.append((mname, tuple(sorted(ctx.guards))))
+            self.s.callpos.append((mname, len(self.s.accesses), ctx.inloop))
             for a in args:
                 self.expr(a, ctx, "U")
             return
         # --- call on something else
+        if mname == "join":
+            self.s.joins.append((tuple(sorted(ctx.guards)), f, l))
         if cal.get("isArrow"):
             self.expr(base, ctx, "U")
         else:
@@ -549,6 +604,7 @@ class Analyzer:
                     if l is None:
                         f, l = loc_of(fn)
                     s.accesses.append((ai["name"], "W", (), False, False, f, l))
+                    s.accloop.append(None)
                 for x in kids(ch):
                     self.expr(x, ctx, "U")
             elif ch.get("kind") == "CompoundStmt":
@@ -565,10 +621,37 @@ class Analyzer:
             break
         cf = bool(first is not None and self.is_loop_query(first, "assertInLoopThread"))
         s.check_first = cf if s.check_first is None else (s.check_first and cf)
+        base = len(s.accesses)
         self.stmt(body, ctx)
+        # the tail of the body after its last write of each member g: what this method may still be doing once another
+        # thread has seen that value of g (used for thread entry functions against the destructor's join condition)
+        lastw = {}
+        for i in range(base, len(s.accesses)):
+            if s.accesses[i][1] == "W":
+                lastw[s.accesses[i][0]] = i
+        for g, i in lastw.items():
+            start = s.accloop[i] if s.accloop[i] is not None else i + 1
+            # (accesses proven to be on the loop thread - inloop - are the owner's own and do not count)
+            t = set(a[0] for a in s.accesses[start:] if not a[3]) | set(s.accesses[i][2])
+            t |= set(m for (m, _f, _l, pos) in s.lockuses if pos >= start and pos >= base)
+            t.discard(g)
+            s.tails[g] = sorted(set(s.tails.get(g, [])) | t)
+            s.tailranges.append((g, start, len(s.accesses)))
+        if s.kind == "dtor":
+            # implicit member destruction at the closing brace: the synchronisation members (~MutexLock, ~Condition, ...)
+            e = (body.get("range") or {}).get("end") or {}
+            if "expansionLoc" in e:
+                e = e["expansionLoc"]
+            ef, el = e.get("_file"), e.get("_line")
+            if ef:
+                ef = os.path.relpath(ef, REPO) if ef.startswith(REPO.rstrip("/") + "/") else ef
+            for fname, d in self.fields.items():
+                if d.get("sync"):
+                    s.destroys.append((fname, ef, el))
 
 
 MISSING = []
+SHARED = {}              # class -> derives from enable_shared_from_this
 ALL_METHOD_IDS = {}      # decl id -> (class, name)      (per TU; ids are only compared within one TU)
 EXTERN_METHOD_OWNER = {}
 
@@ -643,6 +726,7 @@ def analyse_class(objs, cname, all_classes):
                 sums[nm].kind = "static"
             methods[ch["id"]] = nm
             ALL_METHOD_IDS[ch["id"]] = (cname, nm)
+    SHARED[cname] = any("enable_shared_from_this" in ((b.get("type") or {}).get("qualType", "")) for b in (rec.get("bases") or []))
     an = Analyzer(cname, fields, methods)
     # inline bodies
     for ch in kids(rec):
@@ -655,11 +739,47 @@ def analyse_class(objs, cname, all_classes):
                and n.get("id") not in methods:
                 ALL_METHOD_IDS[n["id"]] = (cname, methods[n["previousDecl"]])
                 an.function(sums[methods[n["previousDecl"]]], n)
+    def join_guards(nm, seen):
+        """None: no join() on any path of nm (through its calls on this); else the members read by the enclosing conditions."""
+        s = sums.get(nm)
+        if s is None or nm in seen:
+            return None
+        res = None
+        for (g, _f, _l) in s.joins:
+            res = (res or set()) | set(g)
+        for (callee, g) in s.callguards:
+            r = join_guards(callee, seen | {nm})
+            if r is not None:
+                res = (res or set()) | set(g) | r
+        return res
+    def callee_uses(nm, seen):
+        """members a method of this class touches off the loop thread, through its calls on `this` as well."""
+        s = sums.get(nm)
+        if s is None or nm in seen or len(seen) > 6:
+            return set()
+        r = set(a[0] for a in s.accesses if not a[3]) | set(x for a in s.accesses if not a[3] for x in a[2])
+        for (callee, _pos, inloop) in s.callpos:
+            if not inloop:
+                r |= callee_uses(callee, seen | {nm})
+        return r
+    for nm in order:
+        s = sums[nm]
+        for (g, start, end) in s.tailranges:
+            t = set(s.tails.get(g, []))
+            for (callee, pos, inloop) in s.callpos:
+                if start <= pos <= end and not inloop:
+                    t |= callee_uses(callee, frozenset([nm]))
+            t.discard(g)
+            s.tails[g] = sorted(t)
     out = []
     for nm in order:
         s = sums[nm]
         if s.bodies == 0:
             continue
+        s.join = None
+        if s.kind == "dtor":
+            jg = join_guards(nm, frozenset())
+            s.join = None if jg is None else sorted(jg)
         out.append(s)
     return fields, out
 
@@ -714,6 +834,10 @@ def analyse_logging(objs, relfile):
         an.fields = fields
         an.function(sums[qual], fn)
     # only the accesses to namespace-scope variables matter here (members of the stack-allocated Logger are thread-private)
+    for q in order:
+        sums[q].join = None
+        sums[q].destroys = []
+        sums[q].tails = {}
     return fields, [sums[q] for q in order]
 
 
@@ -722,7 +846,7 @@ LOGGER_OWNER = {}
 
 # ------------------------------------------------------------------ table
 def read_table():
-    t = {"fields": {}, "methods": {}, "waive": [], "loopref": {}, "lines": []}
+    t = {"fields": {}, "methods": {}, "waive": [], "exitflags": [], "loopref": {}, "lines": []}
     if not os.path.exists(TABLE):
         return t
     for ln, line in enumerate(open(TABLE), 1):
@@ -736,6 +860,8 @@ def read_table():
             t["methods"][(w[1], w[2])] = w[3:]
         elif w[0] == "waive":
             t["waive"].append(tuple(w[1:5]))
+        elif w[0] == "exitflag":
+            t["exitflags"].append((w[1], w[2]))
         else:
             print("MISSING table line %d not understood: %s" % (ln, line))
     return t
@@ -797,7 +923,15 @@ def emit_coq(classes, table, srchash):
             L.append("  %s" % clist(calls))
             L.append("  %s" % clist(xcalls))
             L.append("  %s" % clist(posts))
-            L.append("  %s." % clist(regs))
+            L.append("  %s" % clist(regs))
+            tails = ["(%s, %s)" % (cs(g), clist([cs(x) for x in t])) for g, t in sorted(s.tails.items()) if t]
+            L.append("  %s" % clist(tails))
+            if s.kind == "dtor":
+                L.append("  (Some (mkDtor %s %s))." % (
+                    clist(["(%s, %d%%Z)" % (cs(fn), ln or 0) for (fn, fl, ln) in s.destroys]),
+                    "None" if s.join is None else "(Some %s)" % clist([cs(x) for x in s.join])))
+            else:
+                L.append("  None.")
     L.append("")
     L.append("Definition summaries : list msummary :=\n  %s." % clist(names))
     L.append("")
@@ -845,7 +979,9 @@ def emit_coq(classes, table, srchash):
     wv = ["mkViol %s %s %s %s" % (cs(a), cs(b), cs(c), cs(d)) for (a, b, c, d) in table["waive"]]
     L.append("Definition table_waivers : list violation :=\n  [ %s ]." % "\n  ; ".join(wv))
     L.append("")
-    L.append("Definition table : ptable := mkTable table_fields table_methods declared_fields.")
+    L.append("Definition table_exitflags : list (string * string) :=\n  [ %s ]." % "; ".join("(%s, %s)" % (cs(a), cs(b)) for (a, b) in table["exitflags"]))
+    L.append("")
+    L.append("Definition table : ptable := mkTable table_fields table_methods declared_fields table_exitflags.")
     L.append("")
     return "\n".join(L) + "\n"
 
@@ -928,10 +1064,12 @@ def main():
         summ = {"repo": REPO, "key": key, "classes": {}}
         for (cname, fields, sums) in classes:
             summ["classes"][cname] = {
-                "fields": fields,
+                "fields": fields, "shared": bool(SHARED.get(cname)),
                 "methods": {s.name: {"public": s.public, "kind": s.kind, "check_first": bool(s.check_first), "file": s.file,
                                      "line": s.decl_line, "accesses": s.accesses, "calls": s.calls, "xcalls": s.xcalls,
-                                     "posts": s.posts, "registers": s.registers} for s in sums}}
+                                     "posts": s.posts, "registers": s.registers, "lockuses": s.lockuses,
+                                     "destroys": s.destroys, "joins": s.joins, "join": s.join, "rawposts": s.rawposts,
+                                     "tails": s.tails, "bodies": s.bodies} for s in sums}}
         d = {"v": v, "summary": summ, "missing": MISSING + [l for l in buf.getvalue().splitlines() if l]}
         for old in glob.glob(os.path.join(WORK, "gen_%s_*.json" % hashlib.sha1(REPO.encode()).hexdigest()[:6])):
             try:
